@@ -340,18 +340,20 @@ Definition dispatch (pos : nat) (rest : list N) : dres :=
     end
   else if c =? 47 then
     match r1 with
-    | 47 :: r2 =>
-      match scan_line_comment r2 with
-      | COk n => DItem (mk (IComment false) pos (2 + n))
-      | _ => DErr [(EControl, here)]
-      end
-    | 42 :: r2 =>
-      match scan_block_comment r2 with
-      | COk n => DItem (mk (IComment true) pos (2 + n))
-      | CEof => DErr [(EBlockEof, here)]
-      | CControl => DErr [(EControl, here)]
-      end
-    | _ => DItem (mk (IToken (TRune 47)) pos 1)
+    | [] => DItem (mk (IToken (TRune 47)) pos 1)
+    | d :: r2 =>
+      if d =? 47 then
+        match scan_line_comment r2 with
+        | COk n => DItem (mk (IComment false) pos (2 + n))
+        | _ => DErr [(EControl, here)]
+        end
+      else if d =? 42 then
+        match scan_block_comment r2 with
+        | COk n => DItem (mk (IComment true) pos (2 + n))
+        | CEof => DErr [(EBlockEof, here)]
+        | CControl => DErr [(EControl, here)]
+        end
+      else DItem (mk (IToken (TRune 47)) pos 1)
     end
   else if (c <? 32) || (c =? 127) then DErr [(EControl, here)]
   else if negb (is_punct c) then DErr [(EInvalidChar, here)]
